@@ -337,6 +337,7 @@ Inductive op :=
   | OShrink (i : nat)               (* shrink_data() called directly *)
   | OConcat1 (js : list nat)        (* concatenate(seqs, axis=1) *)
   | OGetCols (i : nat) (ix : index) (* seq[idx, cols]: a column view of the selected elements *)
+  | ODeepCopy (i : nat)             (* copy.deepcopy(seq), what Tractogram.copy() does to every component *)
   | OExtendBad (i : nat) (bpr : Z) (pre : bool) (good : list (list Z)) (extra : nat)
       (* extend(good ++ [an element with another trailing shape] ++ more); extra = rows of bad ++ more *).
 
@@ -535,6 +536,14 @@ Definition step (st : state) (o : op) : state * result :=
         else (st, RErr EValue)
       else (st, RErr EBadSeq)
     end
+  | ODeepCopy i =>
+    (* every attribute is copied: the WHOLE buffer (also rows that are not this sequence's), the same
+       offsets and lengths, _is_view and _buffer_size as they are, the build cache too *)
+    if is_live st i then
+      let s := getseq st i in
+      (mkSt (heap st ++ [getbuf (heap st) (sbuf s)])
+            (seqs st ++ [mkSeq (length (heap st)) (offs s) (lens s) (is_view s) (bufbytes s) (scache s) true]), ROk)
+    else (st, RErr EBadSeq)
   | OExtendBad i bpr pre good extra =>
     (* the good elements are appended, the bad one raises ValueError inside the loop, finalize_append()
        runs in the finally clause: the sequence keeps the good elements and stays usable.  When the
